@@ -108,35 +108,73 @@ Print Assumptions C19_injective.
 
 (* --- the three public functions ----------------------------------------------------------------------------------- *)
 
-(* push = PUT, pushadd = POST, delete = DELETE; exposition body except for delete; the text content type; the caller's
-   timeout untouched; the URL is url_of on the normalised gateway *)
-Theorem C19_method_body_headers : forall (T : Type) a hs gw job gk (t : T) r,
-  request_of a hs gw job gk t = Ok r ->
+(* push = PUT, pushadd = POST, delete = DELETE; the body is the exposition `expo` of the given registry - whatever
+   byte string that is, the empty one included - except for delete, where it is empty; the text content type; the
+   caller's timeout untouched; the URL is url_of on the normalised gateway *)
+Theorem C19_method_body_headers : forall (T : Type) a hs gw job gk expo (t : T) r,
+  request_of a hs gw job gk expo t = Ok r ->
   url_of (gateway_base hs gw) job gk = Ok (rq_url r)
   /\ rq_method r = match a with Push => s2l "PUT" | PushAdd => s2l "POST" | Delete => s2l "DELETE" end
-  /\ rq_body r = match a with Delete => BodyEmpty | _ => BodyExposition end
+  /\ rq_body r = match a with Delete => [] | _ => expo end
   /\ rq_headers r = [(s2l "Content-Type", s2l "text/plain; version=0.0.4; charset=utf-8")]
   /\ rq_timeout r = t.
 Proof. exact (@request_shape). Qed.
 Print Assumptions C19_method_body_headers.
 
 (* end to end: whatever the handler is given decodes to the inputs, for each of the three functions *)
-Theorem C19_request_roundtrip : forall (T : Type) p a hs gw job gk (t : T) r,
-  request_of a hs gw job gk t = Ok r -> Forall (fun kv => legacy_name (fst kv) = true) gk ->
+Theorem C19_request_roundtrip : forall (T : Type) p a hs gw job gk expo (t : T) r,
+  request_of a hs gw job gk expo t = Ok r -> Forall (fun kv => legacy_name (fst kv) = true) gk ->
   pg_decode_text p (gateway_base hs gw) (rq_url r) = Ok ((JOB, job) :: sort_items gk).
 Proof.
-  exact (fun T p a hs gw job gk t r H K =>
-           roundtrip p _ job gk (rq_url r) (proj1 (request_shape a hs gw job gk t r H)) K).
+  exact (fun T p a hs gw job gk expo t r H K =>
+           roundtrip p _ job gk (rq_url r) (proj1 (request_shape a hs gw job gk expo t r H)) K).
 Qed.
 Print Assumptions C19_request_roundtrip.
 
 (* a request is produced for every Unicode input *)
-Theorem C19_request_total : forall (T : Type) a hs gw job gk (t : T),
+Theorem C19_request_total : forall (T : Type) a hs gw job gk expo (t : T),
   Forall (fun c => c < 55296 \/ (57344 <= c /\ c < 1114112)) job ->
   Forall (fun kv => Forall (fun c => c < 55296 \/ (57344 <= c /\ c < 1114112)) (snd kv)) gk ->
-  exists r, request_of a hs gw job gk t = Ok r.
+  exists r, request_of a hs gw job gk expo t = Ok r.
 Proof. exact (@request_total). Qed.
 Print Assumptions C19_request_total.
+
+(* the call as a whole (calls_of = the requests handed to the handler, in order): for every Unicode job and grouping
+   key, every gateway, every timeout and EVERY exposition - also the empty one of a registry with no collectors or
+   whose collectors yield nothing - the handler is given exactly one request, and it is the one described above *)
+Theorem C19_exactly_one_request : forall (T : Type) a hs gw job gk expo (t : T),
+  Forall (fun c => c < 55296 \/ (57344 <= c /\ c < 1114112)) job ->
+  Forall (fun kv => Forall (fun c => c < 55296 \/ (57344 <= c /\ c < 1114112)) (snd kv)) gk ->
+  exists r, calls_of a hs gw job gk expo t = Ok [r]
+    /\ url_of (gateway_base hs gw) job gk = Ok (rq_url r)
+    /\ rq_method r = match a with Push => s2l "PUT" | PushAdd => s2l "POST" | Delete => s2l "DELETE" end
+    /\ rq_body r = match a with Delete => [] | _ => expo end
+    /\ rq_headers r = [(s2l "Content-Type", s2l "text/plain; version=0.0.4; charset=utf-8")]
+    /\ rq_timeout r = t.
+Proof. exact (@calls_total). Qed.
+Print Assumptions C19_exactly_one_request.
+
+(* never zero, never two: a successful call is one request, and it is request_of *)
+Theorem C19_calls_are_one_request : forall (T : Type) a hs gw job gk expo (t : T) l,
+  calls_of a hs gw job gk expo t = Ok l <-> exists r, request_of a hs gw job gk expo t = Ok r /\ l = [r].
+Proof. exact (@calls_exactly_one). Qed.
+Print Assumptions C19_calls_are_one_request.
+
+(* the exposition decides the body and nothing else: pushing an empty registry issues the same PUT / POST to the same
+   URL with the same headers and timeout as pushing any other one (so the group IS replaced by "no metrics") *)
+Theorem C19_exposition_decides_body_only : forall (T : Type) a hs gw job gk e1 e2 (t : T) r1,
+  calls_of a hs gw job gk e1 t = Ok [r1] ->
+  exists r2, calls_of a hs gw job gk e2 t = Ok [r2]
+    /\ rq_url r2 = rq_url r1 /\ rq_method r2 = rq_method r1 /\ rq_headers r2 = rq_headers r1
+    /\ rq_timeout r2 = rq_timeout r1.
+Proof. exact (@calls_body_only). Qed.
+Print Assumptions C19_exposition_decides_body_only.
+
+(* a call fails with ValueError only (a job or value that is not Unicode text) *)
+Theorem C19_calls_only_value_error : forall (T : Type) a hs gw job gk expo (t : T),
+  only_VE (calls_of a hs gw job gk expo t).
+Proof. exact (@calls_only_VE). Qed.
+Print Assumptions C19_calls_only_value_error.
 
 (* a gateway given as g, g/, g//..., http://g, http://g/... is the same gateway; https is kept *)
 Theorem C19_gateway_spelling : forall g n,
@@ -190,3 +228,10 @@ Example C19_example :
        (s2l "http://localhost:9091/metrics/job/j%C3%A9/B@base64/=/a/x%20y%2Bz/b@base64/YS8geg==")
      = Ok [(s2l "job", [106; 233]); (s2l "B", []); (s2l "a", s2l "x y+z"); (s2l "b", s2l "a/ z")].
 Proof. vm_compute. repeat split; repeat constructor. Qed.
+
+(* an empty registry pushed: one PUT with an empty body *)
+Example C19_example_empty_push :
+  calls_of Push false (s2l "gw:9091") (s2l "nightly") [(s2l "shard", s2l "a b")] [] 7
+  = Ok [mkReq (s2l "http://gw:9091/metrics/job/nightly/shard/a%20b") (s2l "PUT") 7
+              [(s2l "Content-Type", s2l "text/plain; version=0.0.4; charset=utf-8")] []].
+Proof. vm_compute. reflexivity. Qed.
